@@ -430,6 +430,35 @@ class Transport(object):
         w.net.send("s2c", addr, bytes(datagram))
 
 
+class LogCounter(object):
+    """the library logs (warnings, caught exceptions) are counted instead of printed"""
+    _inst = None
+
+    @classmethod
+    def attach(cls):
+        import logging
+        if cls._inst is None:
+            class H(logging.Handler):
+                def __init__(self):
+                    logging.Handler.__init__(self)
+                    self.counts = Counter()
+                    self.exceptions = []
+
+                def emit(self, record):
+                    self.counts.inc(record.levelname)
+                    if record.exc_info and len(self.exceptions) < 50:
+                        self.exceptions.append("%s: %r" % (record.getMessage()[:80], record.exc_info[1]))
+            h = H()
+            lg = logging.getLogger("mpgameserver")
+            lg.addHandler(h)
+            lg.propagate = False
+            lg.setLevel(logging.WARNING)
+            cls._inst = h
+        cls._inst.counts = Counter()
+        cls._inst.exceptions = []
+        return cls._inst
+
+
 class World(object):
     """one server (real loop) + any number of real clients + a simulated network"""
 
@@ -441,6 +470,7 @@ class World(object):
         self.jitter = jitter
         self.clock = VClock()
         install_virtual_time(self.clock)
+        self.logs = LogCounter.attach()
         self.counters = Counter()
         self.events = []            # generic event log (tuples)
         self.wire = []              # (n, t, direction, addr, datagram)
@@ -614,11 +644,19 @@ class World(object):
             self.step()
         return cond(self)
 
-    def connect_client(self, c=None, max_ticks=400, with_callback=True):
+    def connect_client(self, c=None, max_ticks=400, with_callback=True, attempts=4):
+        """honest handshake; like an application, retry connect() when an attempt gets no answer
+        (UdpClient sends the hello once; a stale half-open entry at the server swallows the first retry)"""
         c = c or self.add_client()
-        c.connect(with_callback=with_callback)
         from mpgameserver.connection import ConnectionStatus
-        ok = self.run_until(lambda w: c.conn.status == ConnectionStatus.CONNECTED and c.addr in w.ctxt.connections, max_ticks)
-        if not ok:
-            raise Inconclusive("honest handshake did not complete in %d ticks" % max_ticks)
-        return c
+        for attempt in range(attempts):
+            if c.udp.conn is not None:
+                c.udp.forceDisconnect()
+                c.sock_open = True
+                c.sock.fifo.clear()
+            c.connect(with_callback=with_callback)
+            ok = self.run_until(lambda w: c.conn.status == ConnectionStatus.CONNECTED and c.addr in w.ctxt.connections,
+                                max_ticks // attempts + 40)
+            if ok:
+                return c
+        raise Inconclusive("honest handshake did not complete in %d attempts" % attempts)
